@@ -67,6 +67,20 @@ Theorem C04_chol_logdet n (L A : 'M[R]_n) :
 Proof. move=> H1 H2 H3. exact: (@chol_logdet n L A (conj H1 (conj H2 H3))). Qed.
 Print Assumptions C04_chol_logdet.
 
+(* textbook form, for any differentiable symmetric K(t) with positive determinant at x and P' K^-1 P invertible:
+   L(t) = -s (r(t)' K(t)^-1 r(t) + log det K(t)) has the generated gradient entry as its derivative *)
+Theorem C04_loglik_grad_full_logdet n p nh (K : R -> 'M[R]_n) (x : R) (dKt : nat -> 'M[R]_n) (h : nat) (y : 'cV[R]_n)
+        (P : 'M[R]_(n,p)) (s : R) :
+  (forall i j, is_derive (fun t => K t i j) x (dKt h i j)) -> Rlt 0 (\det (K x)) -> (K x)^T = K x ->
+  P^T *m cho_solve (K x) P \in unitmx ->
+  let b K := cho_solve (P^T *m cho_solve K P) (P^T *m cho_solve K y) in
+  let r K := y - P *m b K in
+  let a K := cho_solve K y - cho_solve K (P *m b K) in
+  is_derive (fun t => - s * (((r (K t))^T *m a (K t)) 0 0 + ln (\det (K t)))) x
+            (LogLikGrad.grad n nh (cvv (a (K x))) (fun j l k => mxv (dKt k) j l) (mxv (invmx (K x))) s (fun _ => 1) h).
+Proof. move=> H1 H2 H3 H4 b r a. exact: (loglik_logdet_grad nh y s H1 H2 H3 H4). Qed.
+Print Assumptions C04_loglik_grad_full_logdet.
+
 (* THE FULL THEOREM, polynomial mean, per-point noise: the value compute_log_likelihood returns, as a function of one
    hyperparameter t through the kernel matrix Kker(t) (others fixed), is differentiable at x and its derivative is the h-th
    entry compute_grad_log_likelihood returns (linear parameterisation), dKt h being the h-th slice of the kernel's
